@@ -42,6 +42,10 @@ pub struct C09Case {
     /// it: a duplicate may arrive while the exchange is still open, closing, or long gone
     #[serde(default = "default_linger")]
     pub linger_ms: (u32, u32),
+    /// another exchange of node A sends one datagram over a slow link at `.0` ms; the send takes
+    /// `.1` ms and keeps A's transmit slot busy meanwhile (acks may arrive during that time)
+    #[serde(default)]
+    pub busy_tx: Option<(u16, u16)>,
 }
 
 fn default_linger() -> (u32, u32) {
@@ -71,8 +75,9 @@ pub fn case_strategy() -> impl Strategy<Value = C09Case> {
         prop_oneof![1 => Just(None), 3 => any::<u64>().prop_map(Some)],
         any::<u32>(),
         (linger(), linger()),
+        prop_oneof![2 => Just(None), 1 => (0u16..2500, 50u16..1500).prop_map(Some)],
     )
-        .prop_map(|(kind, script, plan, sched, seed, linger_ms)| {
+        .prop_map(|(kind, script, plan, sched, seed, linger_ms, busy_tx)| {
             let mut script: Vec<Msg> = script
                 .into_iter()
                 .map(|(from_a, len, recv_delay_ms)| Msg {
@@ -89,6 +94,7 @@ pub fn case_strategy() -> impl Strategy<Value = C09Case> {
                 sched,
                 seed,
                 linger_ms,
+                busy_tx,
             }
         })
 }
@@ -268,6 +274,17 @@ pub fn simulate(case: &C09Case) -> Result<SimOut, Case> {
                     .push(format!("accept: {:?}", e.code())),
             }
         });
+
+        if let Some((at_ms, slow_ms)) = case.busy_tx {
+            net.set_slow_send(0, slow_ms as u64 * 1000);
+            let (a, ca) = (&a, &ca);
+            ex.spawn("a.bg", async move {
+                Timer::after(Duration::from_millis(at_ms as u64)).await;
+                if let Ok(mut e) = Exchange::initiate_plaintext(a, ca, vh::sim::net::alien_addr(0)).await {
+                    let _ = e.send(MessageMeta::new(PROTO, 0x7f, false), &[0x42]).await;
+                }
+            });
+        }
 
         // Horizon: every send resolves within the retransmission ladder (< 10 s with maximal
         // jitter); scripts have at most 6 steps and receivers wait at most 4 s per step.
@@ -577,6 +594,9 @@ fn check(case: &C09Case) -> Case {
     }
     if adv.delayed > 0 {
         labels.push("delay".into());
+    }
+    if case.busy_tx.is_some() {
+        labels.push("busy-tx-slot".into());
     }
     let timeouts = la
         .sends
